@@ -1,6 +1,6 @@
 SPECIFICATION Spec
 CONSTANTS
-  Scenarios <- C07Scenarios
+  Scenarios <- QuickScenarios
   Ticks = TRUE
   SkipFix = TRUE
   CctFix = TRUE
